@@ -106,6 +106,29 @@ def select(obs, prop, tier):
 # NB: check names contain spaces for generic impls (`<T<1, 12> as Trait>::f.assertion.1`)
 CHECK_RE = re.compile(
     r"^Check (\d+): (.+)\n\s+- Status: (\S+)\n\s+- Description: \"(.*)\"\n(?:\s+- Location: (.*)\n)?", re.M)
+BLOCK_RE = re.compile(r"^Check (\d+): (.+)$", re.M)
+
+
+def parse_checks(text):
+    """-> [(num, name, status, description, location)]; block-wise, because descriptions may
+    span several lines and check names may contain spaces"""
+    out = []
+    heads = list(BLOCK_RE.finditer(text))
+    for k, m in enumerate(heads):
+        end = heads[k + 1].start() if k + 1 < len(heads) else len(text)
+        block = text[m.end():end]
+        cut = block.find("\n\n")
+        if cut >= 0:
+            block = block[:cut + 1]
+        st = re.search(r"^\s+- Status: (\S+)", block, re.M)
+        de = re.search(r"^\s+- Description: \"(.*?)\"\s*(?=^\s+- Location:|\Z)", block, re.M | re.S)
+        lo = re.search(r"^\s+- Location: (.*)$", block, re.M)
+        if not st:
+            continue
+        out.append((m.group(1), m.group(2).strip(), st.group(1), (de.group(1) if de else "").replace("\n", " "), lo.group(1) if lo else ""))
+    return out
+
+
 SUMMARY_RE = re.compile(r"^ \*\* (\d+) of (\d+) failed", re.M)
 
 # Kani inserts overflow checks into stdarch's *wrapping* SIMD intrinsics
@@ -128,7 +151,7 @@ def parse_harness_output(text, allow=None):
     m = re.search(r"Verification Time: ([0-9.]+)s", text)
     if m:
         res["seconds"] = float(m.group(1))
-    checks = CHECK_RE.findall(text)
+    checks = parse_checks(text)
     res["checks"] = len(checks)
     allow_res = []
     if allow:
